@@ -40,16 +40,16 @@ def c04_cases(tier, seed):
             cases.append(ew_case(a, b, ops=("add", "sub", "mul", "axpy", "div") if k in sample else ("add",)))
     # beyond the exhaustive bound: random pairs with sizes up to 6
     big = []
-    n = 3000 if tier == "thorough" else 400
+    n = 4000 if tier == "thorough" else 700
     while len(big) < n:
         r1, r2 = rnd.randint(1, 4), rnd.randint(1, 4)
-        a = [rnd.choice([1, 1, 2, 3, 4, 5, 6]) for _ in range(r1)]
+        a = [rnd.choice([1, 1, 2, 3, 4, 5, 6, 7, 8]) for _ in range(r1)]
         if rnd.random() < 0.7:
             # derive a mostly-compatible partner
-            b = [x if rnd.random() < 0.6 else rnd.choice([1, x, rnd.randint(1, 6)]) for x in a][-r2:]
+            b = [x if rnd.random() < 0.6 else rnd.choice([1, x, rnd.randint(1, 8)]) for x in a][-r2:]
         else:
-            b = [rnd.choice([1, 2, 3, 4, 5, 6]) for _ in range(r2)]
-        if prod(a) * prod(b) > 40000 or (bdims(a, b) and prod(bdims(a, b)) > 400):
+            b = [rnd.choice([1, 2, 3, 4, 5, 6, 7, 8]) for _ in range(r2)]
+        if prod(a) * prod(b) > 90000 or (bdims(a, b) and prod(bdims(a, b)) > 600):
             continue
         big.append(ew_case(a, b, ops=("add", "mul", "div")))
     return cases + big
@@ -196,12 +196,21 @@ def c07_cases(tier, seed):
         for t in ([n + 1], [n, 2], [max(1, n - 1)] if n > 1 else [2], d + [0], [0]):
             steps.append(op("reshape", [1], h, d=t)); h += 1
         cases.append(steps)
+    # every block size 1..40 summed (as one dimension and as a product of two)
+    for nblk in range(1, 41):
+        steps = [RESET, leaf(1, [2, nblk], [(k % 11) - 5 for k in range(2 * nblk)]), op("sum", [1], 10, k=1), op("sum", [1], 11, k=2),
+                 {"op": "sum_all", "args": [1]}]
+        for a in range(2, 7):
+            if nblk % a == 0 and nblk // a <= 8:
+                steps.append(op("reshape", [1], 20 + a, d=[2, a, nblk // a]))
+                steps.append(op("sum", [20 + a], 30 + a, k=2))
+        cases.append(steps)
     # beyond the bound: random larger shapes
-    nbig = 400 if tier == "thorough" else 60
+    nbig = 500 if tier == "thorough" else 120
     for _ in range(nbig):
-        d = [rnd.randint(1, 6) for _ in range(rnd.randint(1, 4))]
+        d = [rnd.randint(1, 8) for _ in range(rnd.randint(1, 4))]
         n = prod(d)
-        if n > 400:
+        if n > 600:
             continue
         steps = [RESET, leaf(1, d, [rnd.randint(-9, 9) for _ in range(n)])]
         h = 10
@@ -278,10 +287,10 @@ def c05_cases(tier, seed):
         cases.append(mm_case([k], False, [k], False))
         cases.append(mm_case([k], False, [k], False, [1]))
     # beyond the bound: sizes up to 5
-    for _ in range(600 if tier == "thorough" else 80):
-        r, k, c = rnd.randint(1, 5), rnd.randint(1, 5), rnd.randint(1, 5)
+    for _ in range(900 if tier == "thorough" else 220):
+        r, k, c = rnd.randint(1, 7), rnd.randint(1, 7), rnd.randint(1, 7)
         ta, tb = rnd.random() < 0.5, rnd.random() < 0.5
-        la, lb = rnd.choice(LEADS), rnd.choice(LEADS)
+        la, lb = rnd.choice(LEADS + [[2, 3], [3], [2, 1, 2]]), rnd.choice(LEADS + [[3], [2, 3]])
         dc = rnd.choice([None, [c], [r, c], [1, c], [1]])
         cases.append(mm_case(la + ([k, r] if ta else [r, k]), ta, lb + ([c, k] if tb else [k, c]), tb, dc))
     return cases
@@ -320,11 +329,11 @@ def c06_cases(tier, seed):
     cases = [conv_case(*p) for p in pick]
     for p in rnd.sample(space, 100):
         cases.append(conv_case(*p, fdepth=p[1] + 1))      # depth mismatch: refused
-    for _ in range(300 if tier == "thorough" else 40):     # beyond the bound
-        ir, ic = rnd.randint(3, 8), rnd.randint(3, 8)
-        fr, fc = rnd.randint(1, 4), rnd.randint(1, 4)
+    for _ in range(500 if tier == "thorough" else 120):     # beyond the bound
+        ir, ic = rnd.randint(3, 9), rnd.randint(3, 9)
+        fr, fc = rnd.randint(1, 5), rnd.randint(1, 5)
         if fr > ir or fc > ic:
             continue
-        cases.append(conv_case(rnd.choice([[], [2], [4]]), rnd.randint(1, 3), ir, ic, rnd.randint(1, 3), fr, fc,
+        cases.append(conv_case(rnd.choice([[], [2], [4], [2, 1, 2], [1, 3]]), rnd.randint(1, 3), ir, ic, rnd.randint(1, 3), fr, fc,
                                rnd.randint(1, 4), rnd.randint(1, 4)))
     return cases
